@@ -122,7 +122,7 @@ def deep_malformed_texts():
     levels: a guard that stops looking at some depth would let them through."""
     bad = ["(a b):c", "a:[(b c) TO d]", "(a OR b):>5", "(a b):[1 TO 2]", "a:[1 TO (b OR c)]", "(a b):(c OR d)", "(NOT a):b"]
     out = []
-    for k in (1, 3, 20, 63, 64, 65, 66, 100, 130, 260, 600):
+    for k in (1, 3, 20, 63, 64, 65, 66, 100, 130, 200):   # TLC's JSON reader stops at 255 levels of nesting
         for b in bad:
             out += ["NOT " * k + b, "-" * 1 + "(" * k + b + ")" * k, "+(" * k + b + ")" * k, "(x:1 AND " * k + b + ")" * k,
                     "(" + b + " OR y:2" + ")" * 1 if k == 1 else "(y:2 OR " * k + b + ")" * k]
